@@ -910,7 +910,11 @@ class Gen:
                     if [t.text for t in st[i:i + len(atoks)]] == atoks: hits.append(i)
                     i += 1
                 if nth < 1 or nth > len(hits):
-                    raise AnchorLost(f"{fid}: @replace {rule} anchor {anchor!r} #{nth}: {len(hits)} hits")
+                    # soft: the call this rewrite is for is no longer in the function; nothing to rewrite. If the construct is
+                    # still there in another form Verus rejects the file (exit 2); otherwise the contract decides.
+                    self.skipped_hints.append(f"{fid}: rewrite {rule} of {anchor!r} #{nth} (call not found)")
+                    info.setdefault("skipped_hints", []).append(f"rewrite {rule} {anchor} #{nth}")
+                    continue
                 a, b = st[hits[nth - 1]].start, st[hits[nth - 1] + len(atoks) - 1].end
                 # drop closure/other splices inside the replaced span
                 sp.ops = [o for o in sp.ops if not (a <= o[0] and o[1] <= b)]
